@@ -135,11 +135,11 @@ class CumSumSoftPlusTransform(Transform):
         return torch.log(x.cumsum(-1).exp() + 1.0)
 
     def _inverse(self, y):
-        y_log = y.log()
-        return torch.cat((y_log[..., :1], y_log[..., 1:] - y_log[..., :-1]), -1)
+        z = torch.expm1(y).log()
+        return torch.cat((z[..., :1], z[..., 1:] - z[..., :-1]), -1)
 
     def log_abs_det_jacobian(self, x, y):
-        return torch.zeros(x.shape[:-1])
+        return -softplus(-x.cumsum(-1)).sum(-1)
 
 
 @register_class
